@@ -632,6 +632,12 @@ func runBatch() {
 		case "C03": // library-made signatures as batch members of every size / position, same-signer runs
 			want = !isErr && only("sameSigner") && c.Entropy == "random"
 			num, den = 1, 8
+			// ... and library-made signatures next to a malformed member in a batch of several chunks: the honest ones must still verify
+			if !isErr && !want && nb > 0 && c.N > 64 && c.Entropy == "random" &&
+				only("undecA", "undecR", "smallR", "smallA", "truncSig", "truncKey", "nilKey", "nilSig", "longSig", "wrongMsg", "flipR") {
+				want = true
+				num, den = 1, 30
+			}
 		case "C04": // S >= L at every position of every chunking, all four verifier modes
 			want = !isErr && nb > 0 && only("SplusL", "SplusLbad", "flipS", "wrongMsg", "smallA", "truncSig", "nilKey", "smallR") && (kinds["SplusL"] || kinds["SplusLbad"])
 			num, den = 1, 8
